@@ -182,4 +182,400 @@ theorem cycle (d : Doc) (hw : wf d = true) (hx : noMultiExtraDoc d) :
     exact All2.imp_mem _ _ this (fun p hp q h => spells_of_canon p (hparas p hp) q h)
   exact ⟨ps, qs, hps, docDumps_eq d.paras ps hall hx hne, hqs, docDumps_eq d.paras qs hallq' hx hne, hall, hallq'⟩
 
+/-! ### the rendering has one block of lines per paragraph -/
+
+def blockStep (l : Str) (acc : List (List Str)) : List (List Str) :=
+  if isBlank l then [] :: acc else
+    match acc with
+    | b :: rest => (l :: b) :: rest
+    | [] => [[l]]
+
+theorem blocks_eq (t : Str) : Props.C13.blocks t = (splitLinesAscii t).foldr blockStep [[]] := rfl
+
+theorem foldr_block (b : List Str) (hb : ∀ l ∈ b, isBlank l = false) (h : List Str) (r : List (List Str)) :
+    b.foldr blockStep (h :: r) = (b ++ h) :: r := by
+  induction b with
+  | nil => rfl
+  | cons l ls ih =>
+    simp only [List.foldr_cons, ih (fun x hx => hb x (by simp [hx])), blockStep, hb l (by simp), Bool.false_eq_true,
+      if_false, List.cons_append]
+
+/-- the lines of a document whose paragraphs are separated by one empty line -/
+def sepLines : List (List Str) → List Str
+  | [] => []
+  | [b] => b
+  | b :: c :: rest => b ++ [] :: sepLines (c :: rest)
+
+theorem blocks_sepLines (L : List (List Str)) (hne : L ≠ []) (hL : ∀ b ∈ L, ∀ l ∈ b, isBlank l = false) :
+    (sepLines L).foldr blockStep [[]] = L := by
+  induction L with
+  | nil => exact absurd rfl hne
+  | cons b rest ih =>
+    cases rest with
+    | nil =>
+      simp only [sepLines]
+      rw [foldr_block b (hL b (by simp))]
+      simp
+    | cons c rest' =>
+      have ih' := ih (by simp) (fun x hx => hL x (by simp [hx]))
+      simp only [sepLines, List.foldr_append, List.foldr_cons]
+      rw [ih']
+      have : blockStep [] (c :: rest') = [] :: c :: rest' := by simp [blockStep, isBlank]
+      rw [this, foldr_block b (hL b (by simp))]
+      simp
+
+theorem flatMap_lines6 (p : Dep5.Para) :
+    p.flatMap (fun a => Props.C06.fieldLines (Props.C09D.toField a)) = p.flatMap fieldLines := by
+  induction p with
+  | nil => rfl
+  | cons f fs ih => simp only [List.flatMap_cons, ih, Props.C09D.fieldLines_eq6]
+
+theorem docLines_ones (paras : List Dep5.Para) :
+    Props.C06.docLines (Props.C09D.toParas paras (ones paras.length)) =
+      sepLines (paras.map fun p => p.flatMap fieldLines) := by
+  induction paras with
+  | nil => rfl
+  | cons p rest ih =>
+    cases rest with
+    | nil =>
+      simp only [Props.C09D.toParas, Props.C06.docLines, Props.C06.paraLines, List.map_cons, List.map_nil, sepLines,
+        List.flatMap_map]
+      exact flatMap_lines6 p
+    | cons q rest' =>
+      have e : ones ((p :: q :: rest').length) = 1 :: ones ((q :: rest').length) := by
+        simp [ones, List.replicate_succ]
+      rw [e]
+      simp only [Props.C09D.toParas, List.headD_cons, List.tail_cons, Props.C06.docLines, List.map_cons, sepLines]
+      have := ih
+      simp only [Props.C09D.toParas, List.map_cons] at this
+      rw [this]
+      simp [Props.C06.paraLines, List.flatMap_map, flatMap_lines6]
+
+theorem noBlank_canon (d : Doc) (hw : wf d = true) :
+    Props.C13.noBlankInside (canonDoc d).text d.paras.length = true := by
+  have hwc := wf_canon d hw
+  obtain ⟨hne, hparas, _, _, hlen, hseps, _⟩ := wf_parts (canonDoc d) hwc
+  obtain ⟨hne0, _⟩ := wf_parts d hw
+  have hP : (canonDoc d).paras = canonParas d.paras := rfl
+  have htext : (canonDoc d).text = renderAux (canonParas d.paras) (ones (canonParas d.paras).length) := by
+    simp [canonDoc, canonParas]
+  rw [hP] at hne hparas
+  have hlines : splitLinesAscii (canonDoc d).text = sepLines ((canonParas d.paras).map fun p => p.flatMap fieldLines) := by
+    rw [htext, Props.C09D.render_eq6 _ _ (by intro n hn; have := List.eq_of_mem_replicate hn; omega) (by simp [ones]),
+      Props.C06.lines_render _ true (fun q hq => (Props.C09D.toParas_facts _ _ hparas q hq).2), docLines_ones]
+  have hblocks : Props.C13.blocks (canonDoc d).text = (canonParas d.paras).map fun p => p.flatMap fieldLines := by
+    rw [blocks_eq, hlines]
+    apply blocks_sepLines
+    · intro e; exact hne (List.map_eq_nil_iff.mp e)
+    · intro b hb l hl
+      obtain ⟨P, hPm, rfl⟩ := List.mem_map.mp hb
+      obtain ⟨f, hf, hlf⟩ := List.mem_flatMap.mp hl
+      have hfo := fields_ok P (hparas P hPm) f hf
+      obtain ⟨h1, h2⟩ := fieldLines_facts f hfo l hlf
+      exact nonblank_of_last l h1 h2
+  unfold Props.C13.noBlankInside
+  simp only [hblocks]
+  have hlenP : (canonParas d.paras).length = d.paras.length := by simp [canonParas]
+  have hall : ((canonParas d.paras).map fun p => p.flatMap fieldLines).filter (fun b => !b.isEmpty) =
+      (canonParas d.paras).map fun p => p.flatMap fieldLines := by
+    rw [List.filter_eq_self]
+    intro b hb
+    obtain ⟨P, hPm, rfl⟩ := List.mem_map.mp hb
+    have hPo := hparas P hPm
+    have hPne : P ≠ [] := by
+      simp only [paraOk, Bool.and_eq_true, Bool.not_eq_true', List.isEmpty_eq_false_iff] at hPo
+      exact hPo.1.1.1
+    cases hPP : P with
+    | nil => exact absurd hPP hPne
+    | cons f fs => simp [List.flatMap_cons, fieldLines]
+  rw [hall]
+  have hn0 : (d.paras.length == 0) = false := by
+    cases hd : d.paras with
+    | nil => exact absurd hd hne0
+    | cons _ _ => rfl
+  simp [hlenP, hn0]
+
+/-! ### rebuilding a paragraph from its dictionary form -/
+
+def valOf (p : Dep5.Para) (n : Str) : Str :=
+  match pick p n with
+  | some f => rawVal (canonField f)
+  | none => []
+
+def itemsA (p : Dep5.Para) (K : Kind) : List (Str × Str) :=
+  (typedFields K).filterMap fun nc => if (valOf p nc.1).isEmpty then none else some (nc.1, valOf p nc.1)
+
+def itemsB (p : Dep5.Para) : List (Str × Str) := (is5 p).map fun f => (fieldKey f, f.first)
+
+theorem typed_no_hyphen : ∀ K ∈ [Kind.header, Kind.files, Kind.license], ∀ nc ∈ typedFields K,
+    replaceChar '-' '_' nc.1 = nc.1 := by decide +kernel
+
+theorem replace_idem (s : Str) : replaceChar '-' '_' (replaceChar '-' '_' s) = replaceChar '-' '_' s := by
+  unfold replaceChar
+  rw [List.map_map]
+  apply List.map_congr_left
+  intro c _
+  by_cases h : c = '-'
+  · subst h; decide
+  · simp [h]
+
+theorem lookup_none_of_not_mem' {β} (l : List (Str × β)) (k : Str) (h : k ∉ l.map (·.1)) : l.lookup k = none :=
+  lookup_none_of_not_mem l k h
+
+theorem nodup_reverse' {α} (l : List α) (h : l.Nodup) : l.reverse.Nodup := by
+  unfold List.Nodup at h ⊢
+  rw [List.pairwise_reverse]
+  exact h.imp (fun hab => fun e => hab e.symm)
+
+theorem toDict_valOf (p : Dep5.Para) (K : Kind) (hp : paraOk p = true) (hK : paraKind p = some K) (hKne : K ≠ .catchall)
+    (hx : noMultiExtra p) (q : Model.Copyright.Para)
+    (hqf : q.fields = (paraOf p K).fields) (hqe : q.extra = (paraOf p K).extra) :
+    toDict q = ((typedFields K).map fun nc => (nc.1, XV.s (valOf p nc.1))) ++ (is5 p).map fun f => (fieldKey f, XV.s f.first) :=
+  toDict_eq p K hp hK hKne hx q hqf hqe
+
+theorem fromDict_toDict (p : Dep5.Para) (hx : noMultiExtra p) (q : Model.Copyright.Para) (h : SpellsP p q) :
+    toDict (Props.C13.fromDict q.kind (toDict q)) = toDict q := by
+  obtain ⟨hp, K, hK, hKne, hqk, hqf, hqe⟩ := h
+  have hfo := fields_ok p hp
+  have hKm := kind_mem K hKne
+  have hnd := typed_nodup K hKm
+  have htd := toDict_valOf p K hp hK hKne hx q hqf hqe
+  -- the items read back from the dictionary
+  have hitemsA : ((typedFields K).map fun nc => (nc.1, XV.s (valOf p nc.1))).filterMap Props.C13.dictItem = itemsA p K := by
+    unfold itemsA
+    rw [List.filterMap_map]
+    apply filterMap_congr'
+    intro nc hnc
+    simp only [Function.comp, Props.C13.dictItem, typed_no_hyphen K hKm nc hnc]
+  have hitemsB : ((is5 p).map fun f => (fieldKey f, XV.s f.first)).filterMap Props.C13.dictItem = itemsB p := by
+    unfold itemsB
+    rw [List.filterMap_map]
+    have : ∀ l : List Field, (∀ f ∈ l, f ∈ is5 p) →
+        l.filterMap (Props.C13.dictItem ∘ fun f => (fieldKey f, XV.s f.first)) = l.map fun f => (fieldKey f, f.first) := by
+      intro l
+      induction l with
+      | nil => intro _; rfl
+      | cons f fs ih =>
+        intro hl
+        obtain ⟨hfp, hk5⟩ := List.mem_filter.mp (hl f (by simp))
+        have hk : f.kind = 5 := by simpa using hk5
+        obtain ⟨hne, _, _⟩ := extra_parts f hk (hfo f hfp)
+        have hie : f.first.isEmpty = false := by cases hff : f.first <;> simp_all
+        simp only [List.filterMap_cons, Function.comp, Props.C13.dictItem, hie, Bool.false_eq_true, if_false, List.map_cons]
+        rw [ih (fun g hg => hl g (by simp [hg]))]
+        simp only [fieldKey, replace_idem]
+    exact this _ (fun f hf => hf)
+  have hAkeys : ∀ kv ∈ itemsA p K, ∃ nc ∈ typedFields K, kv = (nc.1, valOf p nc.1) ∧ (valOf p nc.1).isEmpty = false := by
+    intro kv hkv
+    unfold itemsA at hkv
+    obtain ⟨nc, hnc, h⟩ := List.mem_filterMap.mp hkv
+    by_cases he : (valOf p nc.1).isEmpty = true
+    · simp [he] at h
+    · simp only [he, Bool.false_eq_true, if_false, Option.some.injEq] at h
+      exact ⟨nc, hnc, h.symm, by simpa using he⟩
+  have hAin : ∀ kv ∈ itemsA p K, ((typedFields K).map (·.1)).contains kv.1 = true := by
+    intro kv hkv
+    obtain ⟨nc, hnc, rfl, _⟩ := hAkeys kv hkv
+    exact List.contains_iff_mem.mpr (List.mem_map.mpr ⟨nc, hnc, rfl⟩)
+  have hBout : ∀ kv ∈ itemsB p, ((typedFields K).map (·.1)).contains kv.1 = false := by
+    intro kv hkv
+    unfold itemsB at hkv
+    obtain ⟨f, hf, rfl⟩ := List.mem_map.mp hkv
+    obtain ⟨hfp, hk5⟩ := List.mem_filter.mp hf
+    exact extra_not_known K hKne f (hfo f hfp) (by simpa using hk5)
+  have hknown : (itemsA p K ++ itemsB p).filter (fun kv => ((typedFields K).map (·.1)).contains kv.1) = itemsA p K := by
+    rw [List.filter_append, List.filter_eq_self.mpr hAin, List.filter_eq_nil_iff.mpr (fun kv hkv => by rw [hBout kv hkv]; exact Bool.false_ne_true)]
+    simp
+  have hextra : (itemsA p K ++ itemsB p).filter (fun kv => !((typedFields K).map (·.1)).contains kv.1) = itemsB p := by
+    rw [List.filter_append, List.filter_eq_nil_iff.mpr (fun kv hkv => by rw [hAin kv hkv]; decide),
+      List.filter_eq_self.mpr (fun kv hkv => by rw [hBout kv hkv]; rfl)]
+    simp
+  -- keys of A: distinct typed names
+  have hAnd : ((itemsA p K).map (·.1)).Nodup := by
+    have : ∀ tf : List (Str × String), (tf.map (·.1)).Nodup →
+        ((tf.filterMap fun nc => if (valOf p nc.1).isEmpty then none else some (nc.1, valOf p nc.1)).map (·.1)).Sublist (tf.map (·.1)) := by
+      intro tf
+      induction tf with
+      | nil => intro _; exact List.Sublist.slnil
+      | cons nc rest ih =>
+        intro hnd
+        rw [List.map_cons] at hnd
+        have hn := List.nodup_cons.mp hnd
+        by_cases he : (valOf p nc.1).isEmpty = true
+        · simp only [List.filterMap_cons, he, if_true, List.map_cons]
+          exact List.Sublist.cons _ (ih hn.2)
+        · simp only [List.filterMap_cons, he, Bool.false_eq_true, if_false, List.map_cons]
+          exact List.Sublist.cons_cons _ (ih hn.2)
+    unfold itemsA
+    exact List.Nodup.sublist (this _ hnd) hnd
+  -- the value read back for a typed name
+  have hlook : ∀ nc ∈ typedFields K, (itemsA p K).reverse.lookup nc.1 = if (valOf p nc.1).isEmpty then none else some (valOf p nc.1) := by
+    intro nc hnc
+    by_cases he : (valOf p nc.1).isEmpty = true
+    · rw [if_pos he]
+      apply lookup_none_of_not_mem
+      intro hm
+      rw [List.map_reverse, List.mem_reverse] at hm
+      obtain ⟨kv, hkv, hk⟩ := List.mem_map.mp hm
+      obtain ⟨nc', hnc', rfl, hne'⟩ := hAkeys kv hkv
+      simp only at hk
+      -- two typed names with the same key are the same entry
+      have : nc' = nc := by
+        have h1 := lookup_mem_nodup (typedFields K) hnd nc' hnc'
+        have h2 := lookup_mem_nodup (typedFields K) hnd nc hnc
+        rw [hk, h2] at h1
+        cases nc; cases nc'; simp only [Option.some.injEq] at h1; simp_all
+      subst this
+      rw [he] at hne'; cases hne'
+    · rw [if_neg he]
+      have hmem : (nc.1, valOf p nc.1) ∈ (itemsA p K).reverse := by
+        rw [List.mem_reverse]
+        unfold itemsA
+        exact List.mem_filterMap.mpr ⟨nc, hnc, by simp [he]⟩
+      have := lookup_mem_nodup (itemsA p K).reverse (by rw [List.map_reverse]; exact nodup_reverse' _ hAnd) _ hmem
+      exact this
+  -- the typed values rebuilt from what was read back render as before
+  have hval : ∀ nc ∈ typedFields K,
+      dumps (fromValue nc.2 (if (valOf p nc.1).isEmpty then none else some (valOf p nc.1))) = valOf p nc.1 := by
+    intro nc hnc
+    unfold valOf
+    cases hpk : pick p nc.1 with
+    | none => simpa using absent_dumps K hKm nc hnc
+    | some f =>
+      obtain ⟨hfp, h5, hfk, _⟩ := pick_some p K hp hK hKne nc hnc f hpk
+      have hok := canon_fieldOk f (hfo f hfp)
+      have hne := canon_first_ne f (hfo f hfp)
+      have h1 := rawVal_ne _ hok
+      simp only [h1, Bool.false_eq_true, if_false]
+      -- the class of the typed name is the class of the field
+      have hal := known_allowed p K hp hK f hfp h5
+      have htab := (allowed_table K hKm _ hal).1
+      have hlk := lookup_mem_nodup (typedFields K) hnd nc hnc
+      have hkk : replaceChar '-' '_' (normLabel f.label) = nc.1 := hfk
+      simp only [] at htab
+      rw [hkk, hlk] at htab
+      have hcls : nc.2 = clsOf f.kind := by simpa using htab
+      have htr : trimmed (canonField f).first = true := by
+        simp only [fieldOk, Bool.and_eq_true] at hok; exact hok.1.2
+      have htv := typed_value (canonField f) hok (by rw [canon_kind]; exact h5)
+      rw [lstrip_rawVal _ hne htr, canon_kind] at htv
+      rw [hcls, htv, canon_expected f (hfo f hfp) h5]
+      exact dumps_eq f (hfo f hfp) h5
+  -- assemble
+  have hBnd : ((itemsB p).map (·.1)).Nodup := by
+    unfold itemsB
+    rw [List.map_map]
+    exact List.Nodup.sublist (List.Sublist.map _ List.filter_sublist) (keys_nodup p hp)
+  have hextraFold : (itemsB p).foldl (fun d kv => lset d kv.1 (XV.s kv.2)) ([] : List (Str × XV)) = (itemsB p).map fun kv => (kv.1, XV.s kv.2) := by
+    have := fold_lset_fresh (itemsB p) (·.1) (fun kv => XV.s kv.2) ([] : List (Str × XV)) hBnd (by simp)
+    simpa using this
+  rw [hqk]
+  unfold Props.C13.fromDict
+  simp only [htd, List.filterMap_append, hitemsA, hitemsB, hknown, hextra, hextraFold]
+  unfold toDict
+  simp only [List.map_map]
+  -- the known part
+  have hknownPart : (typedFields K).map ((fun nf : Str × FV => (nf.1, XV.s (dumps nf.2))) ∘ fun nc =>
+      (nc.1, fromValue nc.2 ((itemsA p K).reverse.lookup nc.1))) = (typedFields K).map fun nc => (nc.1, XV.s (valOf p nc.1)) := by
+    apply List.map_congr_left
+    intro nc hnc
+    simp only [Function.comp, hlook nc hnc, hval nc hnc]
+  rw [hknownPart]
+  -- the extra part
+  have := fold_lset_fresh (is5 p) fieldKey (fun f => XV.s f.first)
+    ((typedFields K).map fun nc => (nc.1, XV.s (valOf p nc.1)))
+    (List.Nodup.sublist (List.Sublist.map _ List.filter_sublist) (keys_nodup p hp))
+    (by
+      intro f hf
+      obtain ⟨hfp, hk5⟩ := List.mem_filter.mp hf
+      have := extra_not_known K hKne f (hfo f hfp) (by simpa using hk5)
+      intro hm
+      simp only [List.map_map, Function.comp_def] at hm
+      have hc : ((typedFields K).map (·.1)).contains (fieldKey f) = true := List.contains_iff_mem.mpr hm
+      rw [this] at hc; cases hc)
+  rw [← this]
+  unfold itemsB
+  rw [List.map_map, List.foldl_map]
+  have hstep : ∀ (l : List Field) (d : List (Str × DV)), (∀ f ∈ l, f ∈ is5 p) →
+      l.foldl (fun d f => lset d ((fun kv : Str × Str => (kv.1, XV.s kv.2)) ((fun f => (fieldKey f, f.first)) f)).1
+        (extraOut ((fun kv : Str × Str => (kv.1, XV.s kv.2)) ((fun f => (fieldKey f, f.first)) f)).2)) d =
+      l.foldl (fun d f => lset d (fieldKey f) (XV.s f.first)) d := by
+    intro l
+    induction l with
+    | nil => intro d _; rfl
+    | cons f fs ih =>
+      intro d hl
+      obtain ⟨hfp, hk5⟩ := List.mem_filter.mp (hl f (by simp))
+      have hk : f.kind = 5 := by simpa using hk5
+      obtain ⟨hne, hpl, htr⟩ := extra_parts f hk (hfo f hfp)
+      have hie : f.first.isEmpty = false := by cases hff : f.first <;> simp_all
+      simp only [List.foldl_cons, extraOut, hie, Bool.false_eq_true, if_false, asFormattedText_line f.first hpl hne htr]
+      exact ih _ (fun g hg => hl g (by simp [hg]))
+  exact hstep _ _ (fun f hf => hf)
+
+/-! ### the property -/
+
+theorem All2.right_mem {α β} {R : α → β → Prop} {as : List α} {bs : List β} (h : All2 R as bs) :
+    ∀ b ∈ bs, ∃ a ∈ as, R a b := by
+  induction h with
+  | nil => intro b hb; cases hb
+  | @cons a b as0 bs0 hab _ ih =>
+    intro x hx
+    rcases List.mem_cons.mp hx with rfl | hx
+    · exact ⟨a, by simp, hab⟩
+    · obtain ⟨a', ha', hr⟩ := ih x hx
+      exact ⟨a', by simp [ha'], hr⟩
+
+theorem noMulti_of (d : Doc) (h : Props.C13.hasMultilineExtra d = false) : noMultiExtraDoc d := by
+  intro p hp f hf hk
+  unfold Props.C13.hasMultilineExtra at h
+  rw [List.any_eq_false] at h
+  have := h p hp
+  rw [Bool.not_eq_true, List.any_eq_false] at this
+  have := this f hf
+  simp only [hk, beq_self_eq_true, Bool.true_and, Bool.not_eq_true, Bool.not_eq_false', List.isEmpty_iff] at this
+  exact this
+
+/-- **C13 for every document of the grammar** whose text blocks start with a paragraph line: outside finding K1 (an
+unknown field with a continuation line) the object is a fixpoint of render → parse, every paragraph is reproduced by
+`from_dict(to_dict(p))`, and the rendering has exactly one block of lines per paragraph.  Documents whose text blocks
+start with a verbatim line (`wf d true` but not `wf d`) are not covered: the statement is partial there. -/
+theorem sound_partial (d : Doc) (hw : wf d = true) : Props.C13.holdsOnK1 d (Props.C13.model d) = true := by
+  unfold Props.C13.holdsOnK1 Props.C13.holdsWith
+  cases hm : Props.C13.hasMultilineExtra d with
+  | true => simp
+  | false =>
+    have hx := noMulti_of d hm
+    obtain ⟨ps, qs, hps, hd1, hqs, hd2, hall, hallq⟩ := cycle d hw hx
+    have hmodel : Props.C13.model d = .ok (Props.C13.Full.mk (ps.map Props.C13.kd) (canonDoc d).text
+        (qs.map Props.C13.kd) (canonDoc d).text
+        (ps.map fun p => toDict (Props.C13.fromDict p.kind (toDict p)))) := by
+      unfold Props.C13.model
+      simp only [hps, hd1, hqs, hd2]
+    rw [hmodel]
+    simp only [Bool.true_and, Bool.false_or, Bool.or_eq_true, Bool.and_eq_true, beq_iff_eq, Bool.not_eq_true']
+    right
+    refine ⟨⟨⟨kd_all d.paras ps qs hx hall hallq, trivial⟩, ?_⟩, ?_⟩
+    · rw [List.map_map]
+      apply List.map_congr_left
+      intro q hq
+      obtain ⟨p, hp, hpq⟩ := All2.right_mem hall q hq
+      simp only [Function.comp, Props.C13.kd]
+      exact fromDict_toDict p (hx p hp) q hpq
+    · rw [List.length_map, hall.length_eq]
+      exact noBlank_canon d hw
+
+/-- non-vacuity: a document with all field kinds, free-layout items and a text moved up to the declaration line -/
+def sample : Doc :=
+  let paras : List Dep5.Para := [
+    [⟨"Format".toList, 0, "https://www.debian.org/doc/packaging-manuals/copyright-format/1.0/".toList, []⟩,
+     ⟨"comment".toList, 4, [], [⟨0, "first".toList⟩, ⟨1, []⟩, ⟨2, "verbatim".toList⟩]⟩,
+     ⟨"X-Foo".toList, 5, "bar".toList, []⟩],
+    [⟨"Files".toList, 1, "a b".toList, [⟨3, "  .c".toList⟩]⟩,
+     ⟨"Copyright".toList, 2, "2001 Foo".toList, [⟨3, "   Bar".toList⟩]⟩,
+     ⟨"Licence".toList, 3, "MIT".toList, [⟨0, "text".toList⟩]⟩]]
+  ⟨paras, [2, 1], renderAux paras [2, 1]⟩
+
+example : wf sample = true ∧ Props.C13.hasMultilineExtra sample = false := by decide +kernel
+
 end Props.C13D
